@@ -40,6 +40,9 @@ def shards(tier, seed):
     for n in range(2, gmax + 1):
         for grid in ("uniform", "log", "irregular"):
             out.append({"part": "rms", "n": n, "grid": grid})
+            if n <= 5:
+                for fscale in (1e-9, 1e6):
+                    out.append({"part": "rms", "n": n, "grid": grid, "fscale": fscale})
     out.append({"part": "get_rms", "seed": seed})
     out.append({"part": "rms_long", "seed": seed})
     out.sort(key=lambda s: -s.get("n", 0))
@@ -225,15 +228,17 @@ def _rms(shard):
     from speckit.dsp import integral_rms
 
     n, kind = shard["n"], shard["grid"]
-    f = grid(kind, n)
+    fscale = float(shard.get("fscale", 1.0))   # the same grids in other frequency units (nano-hertz ... mega-hertz)
+    f = grid(kind, n) * fscale
+    unit = np.sqrt(fscale)                      # size of an RMS for an ASD of order one on this grid
     out = {"evals": 0, "nontrivial": 0, "failures": [], "samples": [], "extra": {}}
     seen = set()
     mids = [0.5 * (a + b) for a, b in zip(f[:-1], f[1:])]
-    edges = sorted(set(f.tolist() + mids + [-np.inf, np.inf, f[0] - 0.1, f[-1] + 0.1]))
+    edges = sorted(set(f.tolist() + mids + [-np.inf, np.inf, f[0] - 0.1 * fscale, f[-1] + 0.1 * fscale]))
     bands = [(lo, hi) for lo in edges for hi in edges if lo <= hi]
 
     def add(tag, msg, asd):
-        key = f"rms/{tag}/{kind}"
+        key = f"rms/{tag}/{kind}" + ("" if fscale == 1.0 else f"/fscale={fscale:g}")
         if key not in seen:
             seen.add(key)
             out["failures"].append(fw.fail(key, f"{key}: f={f.tolist()} asd={asd.tolist()}: {msg}", dict(shard)))
@@ -250,10 +255,10 @@ def _rms(shard):
                 continue
             vals[(lo, hi)] = v
             want = ref_rms(f, asd, lo, hi)
-            if not (abs(v - want) <= 1e-12 * (want + 1)):
+            if not (abs(v - want) <= 1e-12 * (want + unit)):
                 add("value", f"band ({lo},{hi}): {v!r} != sqrt(trapz(asd^2)) over in-band points = {want!r}", asd)
         full = float(integral_rms(f, asd, None))
-        if not (abs(full - ref_rms(f, asd, -np.inf, np.inf)) <= 1e-12 * (full + 1)):
+        if not (abs(full - ref_rms(f, asd, -np.inf, np.inf)) <= 1e-12 * (full + unit)):
             add("none-band", f"pass_band=None gives {full!r}", asd)
         # additivity in power at grid-point splits, monotone under nesting
         for lo, hi in bands:
@@ -261,11 +266,11 @@ def _rms(shard):
                 continue
             for g in f:
                 if lo <= g <= hi and (lo, g) in vals and (g, hi) in vals:
-                    if not (abs(vals[(lo, g)] ** 2 + vals[(g, hi)] ** 2 - vals[(lo, hi)] ** 2) <= 1e-12 * (vals[(lo, hi)] ** 2 + 1)):
+                    if not (abs(vals[(lo, g)] ** 2 + vals[(g, hi)] ** 2 - vals[(lo, hi)] ** 2) <= 1e-12 * (vals[(lo, hi)] ** 2 + fscale)):
                         add("additive", f"rms^2({lo},{g}) + rms^2({g},{hi}) != rms^2({lo},{hi})", asd)
         for (lo, hi), v in vals.items():
             for (lo2, hi2), v2 in vals.items():
-                if lo2 <= lo and hi <= hi2 and v > v2 + 1e-12 * (v2 + 1):
+                if lo2 <= lo and hi <= hi2 and v > v2 + 1e-12 * (v2 + unit):
                     add("monotone", f"band ({lo},{hi}) inside ({lo2},{hi2}) but rms {v!r} > {v2!r}", asd)
                     break
     out["samples"].append({"grid": kind, "f": f.tolist(), "bands": len(bands), "asd vectors": 3 ** n})
@@ -311,18 +316,20 @@ def _get_rms(shard):
 
     out = {"evals": 0, "nontrivial": 0, "failures": [], "samples": [], "extra": {}}
     seen = set()
-    for N, sch, order, colour in itertools.product((64, 200, 3000), ("ltf", "vectorized_ltf", "lpsd"), (0, 1), ("flat", "red2", "red3")):
+    for N, sch, order, colour, fs in itertools.product((64, 200, 3000), ("ltf", "vectorized_ltf", "lpsd"), (0, 1), ("flat", "red2", "red3"), (4.0, 4e-7)):
         if N < 3000 and colour != "flat":
             continue
+        if fs != 4.0 and (colour != "flat" or order != 0):
+            continue   # records sampled once a month: frequencies of 1e-9..1e-7 Hz
         x = records.get("id3", N, shard["seed"]) + 0.2
         if colour == "red2":    # doubly / triply integrated record: power spectrum falling by many decades
             x = np.cumsum(np.cumsum(x - x.mean()))
         elif colour == "red3":
             x = np.cumsum(np.cumsum(np.cumsum(x - x.mean())))
-        r = ana.make_analyzer(x, 4.0, olap=0.5, Jdes=12, Kdes=4, order=order, scheduler=sch, win="hann").compute()
+        r = ana.make_analyzer(x, fs, olap=0.5, Jdes=12, Kdes=4, order=order, scheduler=sch, win="hann").compute()
         f, asd = np.asarray(r.f), np.asarray(r.asd)
         mids = [0.5 * (a + b) for a, b in zip(f[:-1], f[1:])]
-        edges = sorted(set(f.tolist()[:4] + f.tolist()[-3:] + mids[:3] + [0.0, 10.0] + f.tolist()[len(f) // 2: len(f) // 2 + 2] + [float(f[-1]) * 0.7]))
+        edges = sorted(set(f.tolist()[:4] + f.tolist()[-3:] + mids[:3] + [0.0, 2.5 * fs] + f.tolist()[len(f) // 2: len(f) // 2 + 2] + [float(f[-1]) * 0.7]))
         for lo, hi in itertools.product(edges, edges):
             out["evals"] += 1
             out["nontrivial"] += 1
@@ -333,9 +340,9 @@ def _get_rms(shard):
             if not (abs(got - want) <= 1e-10 * want + 1e-300 and abs(got - want2) <= 1e-10 * want + 1e-300):
                 if "get_rms/value" not in seen:
                     seen.add("get_rms/value")
-                    out["failures"].append(fw.fail("get_rms/value", f"get_rms(({lo},{hi}))={got!r} but integral over the band = {want!r} (integral_rms {want2!r}); N={N} {sch}", dict(shard)))
+                    out["failures"].append(fw.fail("get_rms/value", f"get_rms(({lo},{hi}))={got!r} but integral over the band = {want!r} (integral_rms {want2!r}); N={N} {sch} fs={fs}", dict(shard)))
         got = r.get_rms()
-        if not (abs(got - ref_rms(f, asd, -np.inf, np.inf)) <= 1e-12 * (got + 1)) and "get_rms/full" not in seen:
+        if not (abs(got - ref_rms(f, asd, -np.inf, np.inf)) <= 1e-11 * got + 1e-300) and "get_rms/full" not in seen:
             seen.add("get_rms/full")
             out["failures"].append(fw.fail("get_rms/full", f"get_rms() = {got!r} != full-band integral", dict(shard)))
     out["samples"].append({"get_rms": "N x scheduler x order x band pairs incl. reversed"})
